@@ -854,6 +854,11 @@ impl<'a> Gen<'a> {
             }
             self.advance_to_deadline();
         }
+        // the lossy rounds did not complete the handshake: from here on the network is fair, and the
+        // progress oracle (`quiet`) demands that the connector becomes ready
+        if !self.w.eps[0].dead && !self.w.eps[1].dead {
+            self.fair_suffix(30);
+        }
         false
     }
 
